@@ -109,6 +109,7 @@ func zzNewC06World() *zzC06World {
 	lockedCoin := w.credit("locked", s84, 0, 120000, 1, false, 7)
 	leasedCoin := w.credit("leased", s84, 0, 110000, 1, false, 8)
 	w.credit("other-account", s84, w.acct1, 100000, 1, false, 9)
+	leasedUnconf := w.credit("unconfirmed-and-leased", s84, 0, 90000, -1, false, 10)
 	// an unconfirmed spend of one coin (no wallet outputs)
 	sp := wire.NewMsgTx(2)
 	sp.AddTxIn(wire.NewTxIn(&spentCoin.op, nil, nil))
@@ -123,6 +124,9 @@ func zzNewC06World() *zzC06World {
 	_, err = w.w.LeaseOutput(wtxmgr.LockID{1}, leasedCoin.op, 100*365*24*time.Hour)
 	zzW(err)
 	leasedCoin.leased = true
+	_, err = w.w.LeaseOutput(wtxmgr.LockID{2}, leasedUnconf.op, 100*365*24*time.Hour)
+	zzW(err)
+	leasedUnconf.leased = true
 	// history of the leased coin: an unconfirmed spend of it was seen and then
 	// abandoned again (rejected broadcast); the lease is still running
 	ab := wire.NewMsgTx(2)
